@@ -45,11 +45,20 @@ pub fn record_deadlock(msg: &str, rep: Option<&SchedReport>) {
 
 /// Iterates over the case indices of this shard. `f(i, rng)` returns false to stop.
 pub fn case_loop(shard: &Shard, max_cases: u64, mut f: impl FnMut(u64, &mut Rng) -> bool) {
+    if let Some(i) = shard.only_case {
+        CUR_INDEX.store(i, std::sync::atomic::Ordering::Relaxed);
+        tick();
+        let mut rng = Rng::derive(shard.seed, &[hash_str(&shard.check), i]);
+        f(i, &mut rng);
+        return;
+    }
     let mut i = shard.resume;
     while i < max_cases {
         if i % shard.n == shard.idx {
             if !shard.time_left() { with_acc(|a| a.notes.push(format!("time budget reached at case index {i}"))); return; }
             with_acc(|a| a.next_case = i + 1);
+            CUR_INDEX.store(i, std::sync::atomic::Ordering::Relaxed);
+            tick();
             let mut rng = Rng::derive(shard.seed, &[hash_str(&shard.check), i]);
             if !f(i, &mut rng) { return; }
         }
@@ -57,6 +66,7 @@ pub fn case_loop(shard: &Shard, max_cases: u64, mut f: impl FnMut(u64, &mut Rng)
     }
     with_acc(|a| a.next_case = max_cases);
 }
+pub fn current_prop() -> &'static str { CUR.lock().map(|g| g.0).unwrap_or("") }
 pub fn hash_str(s: &str) -> u64 { crate::util::hash_of(s) }
 
 pub fn case_json<F: Fam>(spec: &CaseSpec, inst: &F) -> J { light_case(spec, inst).set("instance", inst.describe()) }
